@@ -203,10 +203,11 @@ pub trait Prop: Sync + Send {
     fn render_enum(&self, tier: Tier, space: usize, index: u64) -> String;
 }
 
-fn finish<P: PropImpl>(p: &P, mut ctx: Ctx, case: P::Case, render: bool) -> CaseReport {
-    p.classify(&mut ctx, &case);
-    let res = match std::panic::catch_unwind(std::panic::AssertUnwindSafe(|| p.check(&mut ctx, &case))) {
-        Ok(r) => r,
+/// Run a closure; a panic becomes a Failure: `harness-panic` (infrastructure error, exit 2) when it was raised in the
+/// harness's own sources, `panic` when it was raised in repository code.
+fn guard<T>(f: impl FnOnce() -> T) -> Result<T, Failure> {
+    match std::panic::catch_unwind(std::panic::AssertUnwindSafe(f)) {
+        Ok(r) => Ok(r),
         Err(payload) => {
             let msg = if let Some(s) = payload.downcast_ref::<&str>() {
                 s.to_string()
@@ -216,16 +217,24 @@ fn finish<P: PropImpl>(p: &P, mut ctx: Ctx, case: P::Case, render: bool) -> Case
                 "<non-string panic payload>".to_string()
             };
             let loc = worker::LAST_PANIC_LOC.with(|c| c.borrow().clone());
-            let aid = if is_harness_location(&loc) {
-                "harness-panic"
-            } else {
-                "panic"
-            };
-            Err(Failure {
-                assertion: aid.to_string(),
-                message: format!("panicked at {}: {}", loc, msg),
-            })
+            let aid = if is_harness_location(&loc) { "harness-panic" } else { "panic" };
+            Err(Failure { assertion: aid.to_string(), message: format!("panicked at {}: {}", loc, msg) })
         }
+    }
+}
+
+/// Report for a case that could not even be built (the decoder itself panicked).
+fn undecodable(f: Failure) -> CaseReport {
+    CaseReport { failure: Some(f), finding: None, labels: vec![], nontrivial: false, dup_of_enum: false, hash: 0, excluded_known: 0, inner_evaluations: 0, rendering: Some("(the case could not be decoded)".into()) }
+}
+
+fn finish<P: PropImpl>(p: &P, mut ctx: Ctx, case: P::Case, render: bool) -> CaseReport {
+    if let Err(f) = guard(|| p.classify(&mut ctx, &case)) {
+        return undecodable(f);
+    }
+    let res = match guard(|| p.check(&mut ctx, &case)) {
+        Ok(r) => r,
+        Err(f) => Err(f),
     };
     let (failure, finding) = match res {
         Ok(()) => (None, None),
@@ -235,7 +244,7 @@ fn finish<P: PropImpl>(p: &P, mut ctx: Ctx, case: P::Case, render: bool) -> Case
         }
     };
     let rendering = if render || failure.is_some() {
-        Some(p.render(&case))
+        Some(guard(|| p.render(&case)).unwrap_or_else(|f| format!("(rendering failed: {})", f.message)))
     } else {
         None
     };
@@ -277,18 +286,24 @@ impl<P: PropImpl> Prop for P {
     fn run_tape(&self, tape: &[u8], avoid_known: bool, render: bool) -> CaseReport {
         let mut ctx = Ctx::new(avoid_known);
         let mut t = Tape::new(tape);
-        let case = self.decode(&mut ctx, &mut t);
-        finish(self, ctx, case, render)
+        match guard(|| self.decode(&mut ctx, &mut t)) {
+            Ok(case) => finish(self, ctx, case, render),
+            Err(f) => undecodable(f),
+        }
     }
     fn run_enum(&self, tier: Tier, space: usize, index: u64, render: bool) -> CaseReport {
         let mut ctx = Ctx::new(true);
-        let case = self.from_enum(&mut ctx, tier, space, index);
-        finish(self, ctx, case, render)
+        match guard(|| self.from_enum(&mut ctx, tier, space, index)) {
+            Ok(case) => finish(self, ctx, case, render),
+            Err(f) => undecodable(f),
+        }
     }
     fn run_text(&self, text: &str, render: bool) -> Option<CaseReport> {
         let mut ctx = Ctx::new(true);
-        let case = self.from_text(&mut ctx, text)?;
-        Some(finish(self, ctx, case, render))
+        match guard(|| self.from_text(&mut ctx, text)) {
+            Ok(case) => Some(finish(self, ctx, case?, render)),
+            Err(f) => Some(undecodable(f)),
+        }
     }
     fn render_tape(&self, tape: &[u8], avoid_known: bool) -> String {
         let mut ctx = Ctx::new(avoid_known);
